@@ -12,7 +12,8 @@ LEVEL = "exploration"
 RULE = ("seeded random integer regression problems (families dense / large column means / near-collinear / +-1 / "
         "sparse with zero rows; n<=12 (thorough: <=24), p<=4 (thorough: <=6); targets random, linear+noise, exactly "
         "linear, large mean; exact power-of-two column and target rescaling 2^-7..2^10; f64 and f32), each fitted with "
-        "both solvers (one f64 problem in eight also through the ndarray bindings with column-major X and negatively strided y) (OLS: QR, SVD; ridge: Cholesky, SVD; alpha in 2^-10..100; normalisation on/off) and judged by "
+        "both solvers (one f64 problem in eight also through the ndarray bindings with column-major X and negatively strided y, one in eight through the api traits SupervisedEstimator::fit / Predictor::predict; size ladder "
+        "n in {63,64,65,255,256,257,1023,1024,1025} on +-1 data) (OLS: QR, SVD; ridge: Cholesky, SVD; alpha in 2^-10..100; normalisation on/off) and judged by "
         "TLC. An event is non-trivial when p >= 2 and the fitted residual is not identically zero (some prediction "
         "differs from its target by more than two fixed-point units); distinct = distinct (X, y, alpha, normalize, prec)")
 
@@ -44,7 +45,7 @@ def run(ctx):
     p = ctx.harness("gen", f)
     events = vlib.read_ndjson(f)
     v, bads = ctx.tlc_trace("linear/LeastSquaresTrace.tla", "linear/LeastSquaresTrace.cfg", f,
-                            must_hit=("Ols_f64", "Ols_f32", "RidgeStd_f64", "RidgeRaw_f64", "RidgeRaw_f32", "Backend_ndarray"))
+                            must_hit=("Ols_f64", "Ols_f32", "RidgeStd_f64", "RidgeRaw_f64", "RidgeRaw_f32", "Backend_ndarray", "Backend_api"))
     for (l, runid, ev, clause) in bads:
         e = events[l - 1]
         ctx.report(key_of(e, clause), "%s fails on a %dx%d %s problem (run %s)" % (clause, e["n"], e["p"], e["ev"], runid), [e])
